@@ -142,6 +142,31 @@ class KernelTr(Translator):
     def compare(self, l, op, r, node, env):
         return super().compare(l, op, r, node, env)
 
+    # ---- loops over array indices: `for i in range(n)` becomes `for_range (Z.to_nat n) (fun i s => ..)` with i : nat, and a bare
+    # loop variable used as a subscript is that nat (no Z round trip); loop variables are not allowed anywhere else ------------
+    def index_nat(self, node, env):
+        if isinstance(node, ast.Name) and env.k(node.id) == "pn":
+            return node.id
+        return super().index_nat(node, env)
+
+    def expr_z(self, node, env):
+        if isinstance(node, ast.Name) and env.k(node.id) == "pn":
+            fail(node, "a loop index is used outside a subscript")
+        return super().expr_z(node, env)
+
+    def stmt(self, node, env):
+        if isinstance(node, ast.For):
+            it = node.iter
+            if node.orelse or not (isinstance(it, ast.Call) and isinstance(it.func, ast.Name) and it.func.id == "range" and len(it.args) == 1
+                                   and not it.keywords and isinstance(node.target, ast.Name)):
+                fail(node, "only `for x in range(n)` loops are translated in the kernel")
+            v = node.target.id
+            sub = env.child()
+            sub.declare(v, "pn", coqname=v)
+            body = self.block(node.body, sub)
+            return f"for_range (Z.to_nat {self.expr_z(it.args[0], env)}) (fun {v} s => {body}) s"
+        return super().stmt(node, env)
+
     # ---- function bodies with returns --------------------------------------------------------------------
     def ret_expr(self, node, env):
         if node is None:
@@ -462,9 +487,9 @@ def translate(repo):
     genv = Env()
     genv.declare("ivar", "a1g", coqname="ivar")
     genv.declare("s", "pf", coqname="jit")
-    genv.declare("i", "pz", coqname="i")
+    genv.declare("i", "pn", coqname="i")
     gtr = KernelTr(genv, "f")
-    gtr.array_read = lambda node, env_: (f"(ivar (Z.to_nat {gtr.expr_z(node.slice, env_)}))" if ast.unparse(node.value) == "ivar"
+    gtr.array_read = lambda node, env_: (f"(ivar {gtr.index_nat(node.slice, env_)})" if ast.unparse(node.value) == "ivar"
                                          else fail(node, "get_ivar reads an array other than ivar"))
     st = loops[0].body
     if len(st) != 1 or not isinstance(st[0], ast.Assign) or ast.unparse(st[0].targets[0]) != "new_ivar[i]":
@@ -472,7 +497,7 @@ def translate(repo):
     rhs = gtr.expr_f(st[0].value, genv)
     out.append("(* get_ivar(ivar, s, new_ivar): `ivar.shape[0]` is the number of epochs *)")
     out.append("Definition get_ivar (len : Z) (ivar : arr1 F) (jit : F) (new_ivar : arr1 F) : arr1 F :=")
-    out.append(f"  for_rangeZ len (fun i new_ivar => upd1 new_ivar (Z.to_nat i) {rhs}) new_ivar.")
+    out.append(f"  for_range (Z.to_nat len) (fun i new_ivar => upd1 new_ivar i {rhs}) new_ivar.")
     out.append("")
     # make_AAinv
     env = base_env()
